@@ -276,13 +276,59 @@ type lvState struct {
 type entry struct {
 	str  bool   // false: the array element is not a string
 	name string // when str
-	beh  string // ok | fail | ignored | nilfactory
+	beh  string // ok | fail | fail-same | fail-mod | fail-junk | ignored | nilfactory
+}
+
+// the ways a modifier can fail: every one returns an error, next to nil / its input wrapper /
+// a modified wrapper / a value that is no wrapper.  All of them are the model's BFail.
+var failShapes = []string{"fail", "fail-same", "fail-mod", "fail-junk"}
+
+func isFail(b string) bool { return strings.HasPrefix(b, "fail") }
+
+var failRotation int
+
+// the next failure shape, in rotation (deterministic in generation order)
+func nextFail() string {
+	failRotation++
+	return failShapes[failRotation%len(failShapes)]
+}
+
+// wrappers a failing (or any) modifier can hand back instead of its input
+type modReq struct{ proxy.RequestWrapper }
+
+func (m modReq) Method() string { return "MODIFIED" }
+func (m modReq) Context() context.Context {
+	if c, ok := m.RequestWrapper.(interface{ Context() context.Context }); ok {
+		return c.Context()
+	}
+	return nil
+}
+
+type modResp struct{ proxy.ResponseWrapper }
+
+func (m modResp) StatusCode() int { return 299 }
+func (m modResp) Context() context.Context {
+	if c, ok := m.ResponseWrapper.(interface{ Context() context.Context }); ok {
+		return c.Context()
+	}
+	return nil
+}
+
+func modified(in interface{}) interface{} {
+	switch x := in.(type) {
+	case proxy.RequestWrapper:
+		return modReq{x}
+	case proxy.ResponseWrapper:
+		return modResp{x}
+	}
+	return in
 }
 
 func behCoq(b string) string {
-	switch b {
-	case "fail":
+	if isFail(b) {
 		return "BFail"
+	}
+	switch b {
 	case "ignored":
 		return "BIgnored"
 	case "nilfactory":
@@ -348,6 +394,12 @@ func factory(name string) func(map[string]interface{}) func(interface{}) (interf
 			switch b {
 			case "fail":
 				return nil, modErr{st.lv, pos}
+			case "fail-same":
+				return in, modErr{st.lv, pos}
+			case "fail-mod":
+				return modified(in), modErr{st.lv, pos}
+			case "fail-junk":
+				return "not a wrapper", modErr{st.lv, pos}
 			case "ignored":
 				return "not a wrapper", nil
 			}
@@ -786,11 +838,16 @@ func main() {
 				ps.entries = append(ps.entries, entry{str: false, beh: l.beh})
 				continue
 			}
-			ps.entries = append(ps.entries, entry{str: true, name: pick(l.reg, i), beh: l.beh})
+			b := l.beh
+			if b == "fail" {
+				b = nextFail() // every generated failure takes the next shape
+			}
+			ps.entries = append(ps.entries, entry{str: true, name: pick(l.reg, i), beh: b})
 		}
 		return ps
 	}
 	byPos := func(reg string, i int) string { return namesOf[reg][i%3%len(namesOf[reg])] }
+	byPosName := byPos
 	byRng := func(reg string, i int) string { return namesOf[reg][r.Intn(len(namesOf[reg]))] }
 	var enum func(alpha []letter, n int, f func([]letter))
 	enum = func(alpha []letter, n int, f func([]letter)) {
@@ -844,7 +901,44 @@ func main() {
 			}
 		}
 	}
+	// corpus: a failure that comes with a usable wrapper / a modified wrapper / junk must
+	// abort exactly like (nil, err), on both sides
+	keep := func(ls []letter) pshape {
+		ps := pshape{kind: "names", entries: []entry{}}
+		for i, l := range ls {
+			ps.entries = append(ps.entries, entry{str: true, name: byPosName(l.reg, i), beh: l.beh})
+		}
+		return ps
+	}
+	for _, lv := range []string{"E", "B"} {
+		for _, sh := range failShapes {
+			pluginCase(lv, keep([]letter{{"req", "ok"}, {"req", sh}, {"req", "ok"}, {"resp", "ok"}}), pluginInners[0])
+			pluginCase(lv, keep([]letter{{"req", "ok"}, {"resp", "ok"}, {"resp", sh}, {"resp", "ok"}}), pluginInners[0])
+			pluginCase(lv, keep([]letter{{"both", sh}, {"resp", "ok"}}), pluginInners[0])
+		}
+	}
+	// exhaustive over the failure shapes: every sequence over {req,resp} x {ok, 4 failure shapes}
+	maxShapes := 2
+	if cfg.Thorough() {
+		maxShapes = 3
+	}
+	var shapeAlpha []letter
+	for _, g := range []string{"req", "resp"} {
+		shapeAlpha = append(shapeAlpha, letter{g, "ok"})
+		for _, sh := range failShapes {
+			shapeAlpha = append(shapeAlpha, letter{g, sh})
+		}
+	}
+	for _, lv := range []string{"E", "B"} {
+		for n := 1; n <= maxShapes; n++ {
+			enum(shapeAlpha, n, func(ls []letter) {
+				pluginCase(lv, keep(ls), pluginInners[0])
+				pluginCase(lv, keep(ls), pluginInners[2])
+			})
+		}
+	}
 	// exhaustive: all sequences over {req,resp} x {ok,fail} up to maxSmall, every failing subset
+	// (each generated failure takes the next failure shape in rotation)
 	maxSmall, nIn, maxFull := 4, 4, 2
 	if cfg.Thorough() {
 		maxSmall, nIn, maxFull = 6, 5, 3
@@ -878,7 +972,7 @@ func main() {
 		failBias := r.Intn(4)
 		for i := range ls {
 			ls[i] = full[r.Intn(len(full))]
-			if failBias == 0 && ls[i].beh == "fail" && r.Chance(2, 3) {
+			if failBias == 0 && isFail(ls[i].beh) && r.Chance(2, 3) {
 				ls[i].beh = "ok"
 			}
 		}
@@ -961,7 +1055,7 @@ func main() {
 
 	reuseStreams(cfg, w, r)
 
-	w.Close(fmt.Sprintf("instance reuse: one static / plugin / DefaultFactory proxy serving sequences of 5-7 different inner outcomes and failing-modifier choices (each step a normal case), and the same instances hit by 12 goroutines over 12 distinct inputs (each distinct (input, observation) once); static middleware: %d strategy values (5 names, absent, non-string, unknown/misspelt) x %d inner outcomes (nil / Data nil / empty / non-empty, complete or not, with or without error) x data sets (empty, disjoint, overriding, nested, odd keys) + every non-configuration shape; "+
+	w.Close(fmt.Sprintf("failing modifiers are realised in 4 shapes - (nil | input wrapper | modified wrapper | non-wrapper value, err) - in rotation everywhere, plus every sequence up to length 2 (thorough 3) over {request,response} x {ok, 4 shapes} and a corpus; instance reuse: one static / plugin / DefaultFactory proxy serving sequences of 5-7 different inner outcomes and failing-modifier choices (each step a normal case), and the same instances hit by 12 goroutines over 12 distinct inputs (each distinct (input, observation) once); static middleware: %d strategy values (5 names, absent, non-string, unknown/misspelt) x %d inner outcomes (nil / Data nil / empty / non-empty, complete or not, with or without error) x data sets (empty, disjoint, overriding, nested, odd keys) + every non-configuration shape; "+
 		"plugin middlewares (endpoint and backend constructor): every sequence over {request,response}x{ok,fail} of length <= %d (every failing subset) x %d inner outcomes, every sequence of length <= %d over the 14-letter alphabet (request/response/both x ok/fail/non-wrapper result/nil factory, unknown name, non-string), random lists up to 9 with duplicate names; "+
 		"DefaultFactory stack with one backend: 6 strategies x 6 endpoint x 5 backend modifier lists x 5 backend results + random; nontrivial = static data non-empty / at least one configured name / stack case",
 		len(strategies), len(inners), maxSmall, nIn, maxFull), true)
